@@ -212,8 +212,8 @@ Proof.
 Qed.
 
 (* all referenced identifiers carry the cursor's name and are identifier nodes of the document *)
-Lemma referenced_sub name ctx p g :
-  sub (named name) (find_referenced_identifiers name ctx p g) (doc_idents p).
+Lemma referenced_sub name ctx p g gp :
+  sub (named name) (find_referenced_identifiers name ctx p g gp) (doc_idents p).
 Proof.
   assert (P : sub (named name) (find_procs name p) (doc_idents p)).
   { intros i H. destruct (find_procs_sub (named name) (named_shift name) p i H). split; auto.
@@ -228,13 +228,46 @@ Proof.
     unfold doc_idents. apply in_or_app. right. apply in_or_app. right.
     unfold all_vars. apply in_flat_map. exists (GProc pd, off). split; [eapply find_proc_decl_in; eauto|exact H1]. }
   unfold find_referenced_identifiers. destruct ctx as [t|pe]; [exact T|].
-  destruct (text_eqb (id_val (pe_name pe)) name); [exact P|].
-  destruct (lt_lookup _ _ name) as [[?|?|?|?]|]; auto. apply sub_nil.
+  destruct (resolve name (GProcE pe) g gp) as [[?|?|?|?]|]; auto. apply sub_nil.
 Qed.
 
-Lemma same_name name ctx p g i :
-  In i (find_referenced_identifiers name ctx p g) -> id_val i = name.
-Proof. intros H. destruct (referenced_sub name ctx p g i H) as [H1 _]. now apply text_eqb_true in H1. Qed.
+Lemma same_name name ctx p g gp i :
+  In i (find_referenced_identifiers name ctx p g gp) -> id_val i = name.
+Proof. intros H. destruct (referenced_sub name ctx p g gp i H) as [H1 _]. now apply text_eqb_true in H1. Qed.
+
+(* ------------------------------------------------------------------------------------------------
+   resolution by syntactic position (/repo b909979) *)
+
+(* in a global position (name of a global declaration, type expression) the locals of the enclosing
+   procedure play no role: the identifier is looked up in the global table only, and the
+   occurrences of a variable are never collected *)
+Lemma referenced_global_position name pe p g :
+  find_referenced_identifiers name (GProcE pe) p g true
+  = match lookup g name with
+    | Some (GTypeE _) => find_types name p
+    | Some (GProcE _) => find_procs name p
+    | None => []
+    end.
+Proof.
+  unfold find_referenced_identifiers, resolve. rewrite lookup_for_global.
+  destruct (lookup g name) as [[?|?]|]; reflexivity.
+Qed.
+
+Lemma predefined_global_position name pe pe' g :
+  is_predefined name (GProcE pe) g true = is_predefined name (GProcE pe') g true.
+Proof. unfold is_predefined, resolve. now rewrite !lookup_for_global. Qed.
+
+(* outside a global position a parameter or variable of the enclosing procedure wins, whatever
+   else has its name (its own procedure, a type, a predefined procedure, `int`): its occurrences
+   inside that procedure are collected, and it is not predefined *)
+Lemma referenced_local name pe p g le :
+  lookup (pe_local pe) name = Some le ->
+  find_referenced_identifiers name (GProcE pe) p g false = find_vars name (id_val (pe_name pe)) p
+  /\ is_predefined name (GProcE pe) g false = false.
+Proof.
+  intros L. unfold find_referenced_identifiers, is_predefined, resolve. rewrite (lookup_for_local _ _ _ _ L).
+  destruct le; auto.
+Qed.
 
 (* ------------------------------------------------------------------------------------------------
    the handlers *)
@@ -257,16 +290,16 @@ Proof.
   inversion H; subst. constructor; auto.
 Qed.
 
-Lemma referenced_ok d name ctx :
+Lemma referenced_ok d name ctx gp :
   nav_wf d ->
-  exists rs, text_ranges (d_toks d) (find_referenced_identifiers name ctx (d_ast d) (d_table d)) = ROk rs.
+  exists rs, text_ranges (d_toks d) (find_referenced_identifiers name ctx (d_ast d) (d_table d) gp) = ROk rs.
 Proof.
   intros W. destruct (nav_wf_parts d W) as (_ & _ & I). rewrite forallb_forall in I.
   apply text_ranges_ok. intros i H. apply I. eapply referenced_sub; eauto.
 Qed.
 
-Lemma with_cursor_r_ok {A} d l c (k : text * (N * N) -> gentry -> res (option A)) :
-  nav_wf d -> (forall id ctx, exists o, k id ctx = ROk o) -> exists o, with_cursor_r d l c k = ROk o.
+Lemma with_cursor_r_ok {A} d l c (k : text * (N * N) -> gentry -> bool -> res (option A)) :
+  nav_wf d -> (forall id ctx gp, exists o, k id ctx gp = ROk o) -> exists o, with_cursor_r d l c k = ROk o.
 Proof.
   intros W K. destruct (doc_cursor_ok d l c W) as [cur [E _]]. unfold with_cursor_r. rewrite E. simpl.
   destruct (cursor_ident cur) as [id|]; [|eauto]. destruct (c_ctx cur) as [ctx|]; eauto.
@@ -278,12 +311,13 @@ Lemma refs_robust d l c :
   /\ (exists o, prepare_rename d l c = ROk o).
 Proof.
   intros W. repeat split.
-  - apply with_cursor_r_ok; auto. intros id ctx.
-    destruct (referenced_ok d (fst id) ctx W) as [rs ->]. simpl. eauto.
-  - apply with_cursor_r_ok; auto. intros id ctx. destruct (text_eqb (fst id) s_int); [eauto|].
-    destruct (referenced_ok d (fst id) ctx W) as [rs ->]. simpl. eauto.
+  - apply with_cursor_r_ok; auto. intros id ctx gp.
+    destruct (referenced_ok d (fst id) ctx gp W) as [rs ->]. simpl. eauto.
+  - apply with_cursor_r_ok; auto. intros id ctx gp. destruct (is_predefined _ _ _ _); [eauto|].
+    destruct (referenced_ok d (fst id) ctx gp W) as [rs ->]. simpl. eauto.
   - destruct (doc_cursor_ok d l c W) as [cur [E _]]. unfold prepare_rename. rewrite E. simpl.
-    destruct (cursor_ident cur) as [[name r]|]; [|eauto]. destruct (text_eqb name s_int); eauto.
+    destruct (cursor_ident cur) as [[name r]|]; [|eauto].
+    destruct (match c_ctx cur with Some ctx => _ | None => false end); eauto.
 Qed.
 
 Lemma no_identifier_no_answer d l c cur :
@@ -293,25 +327,64 @@ Proof.
   intros E H. unfold references, rename, with_cursor_r, prepare_rename. rewrite E. simpl. rewrite H. auto.
 Qed.
 
-Lemma int_not_renamed d l c cur r :
-  doc_cursor d l c = ROk cur -> cursor_ident cur = Some (s_int, r) ->
+(* an identifier that resolves - by its position - to a predefined entity (`int`, printi, ...) is
+   never renamed; this replaces the test on the spelling `int` of the code before /repo b909979 *)
+Lemma predefined_not_renamed d l c cur name r ctx :
+  doc_cursor d l c = ROk cur -> cursor_ident cur = Some (name, r) -> c_ctx cur = Some ctx ->
+  is_predefined name ctx (d_table d) (is_global_position cur) = true ->
   rename d l c = ROk None /\ prepare_rename d l c = ROk None.
 Proof.
-  intros E H. unfold rename, with_cursor_r, prepare_rename. rewrite E. simpl. rewrite H. simpl.
-  destruct (c_ctx cur); auto.
+  intros E H C P. unfold rename, with_cursor_r, prepare_rename. rewrite E. simpl. rewrite H, C. simpl.
+  now rewrite P.
 Qed.
 
-(* prepareRename answers exactly when rename does (on a well-formed document, inside a named
-   declaration that has a table entry) *)
+(* the converse: rename and prepareRename ARE offered on every identifier that does not resolve to a
+   predefined entity - in particular on a parameter or variable named `int` or `printi` *)
+Lemma user_names_renamed d l c cur name r ctx :
+  nav_wf d ->
+  doc_cursor d l c = ROk cur -> cursor_ident cur = Some (name, r) -> c_ctx cur = Some ctx ->
+  is_predefined name ctx (d_table d) (is_global_position cur) = false ->
+  (exists es, rename d l c = ROk (Some es)) /\ prepare_rename d l c = ROk (Some (pos_range r (d_text d))).
+Proof.
+  intros W E H C P. unfold rename, with_cursor_r, prepare_rename. rewrite E. simpl. rewrite H, C. simpl.
+  rewrite P. split; [|reflexivity].
+  destruct (referenced_ok d name ctx (is_global_position cur) W) as [rs ->]. simpl. eauto.
+Qed.
+
+(* prepareRename is null exactly when rename is - inside a declaration that has a table entry.  No
+   well-formedness is needed: a panic is neither `ROk None` *)
 Lemma prepare_iff_rename d l c cur :
-  nav_wf d -> doc_cursor d l c = ROk cur -> c_ctx cur <> None ->
+  doc_cursor d l c = ROk cur -> c_ctx cur <> None ->
   (prepare_rename d l c = ROk None <-> rename d l c = ROk None).
 Proof.
-  intros W E C. unfold rename, with_cursor_r, prepare_rename. rewrite E. simpl.
+  intros E C. unfold rename, with_cursor_r, prepare_rename. rewrite E. simpl.
   destruct (cursor_ident cur) as [[name r]|]; [|tauto].
   destruct (c_ctx cur) as [ctx|]; [|congruence]. simpl.
-  destruct (text_eqb name s_int); [tauto|].
-  destruct (referenced_ok d name ctx W) as [rs ->]. simpl. split; discriminate.
+  destruct (is_predefined _ _ _ _); [tauto|].
+  destruct (text_ranges _ _) as [rs|]; simpl; split; discriminate.
+Qed.
+
+(* one direction holds everywhere: where prepareRename refuses, rename refuses *)
+Lemma prepare_null_rename_null d l c :
+  prepare_rename d l c = ROk None -> rename d l c = ROk None.
+Proof.
+  unfold rename, with_cursor_r, prepare_rename.
+  destruct (doc_cursor d l c) as [cur|]; simpl; [|discriminate].
+  destruct (cursor_ident cur) as [[name r]|]; [|reflexivity].
+  destruct (c_ctx cur) as [ctx|]; [|reflexivity]. simpl.
+  destruct (is_predefined _ _ _ _); [reflexivity|discriminate].
+Qed.
+
+(* the other direction fails only outside every declaration with a table entry (impossible in a
+   diagnostic-free program): there references and rename are null, while prepareRename still
+   answers with the range of the identifier under the cursor, whatever it is *)
+Lemma no_context d l c cur :
+  doc_cursor d l c = ROk cur -> c_ctx cur = None ->
+  references d l c = ROk None /\ rename d l c = ROk None
+  /\ prepare_rename d l c = ROk (option_map (fun id => pos_range (snd id) (d_text d)) (cursor_ident cur)).
+Proof.
+  intros E C. unfold references, rename, with_cursor_r, prepare_rename. rewrite E. simpl. rewrite C.
+  destruct (cursor_ident cur) as [[name r]|]; auto.
 Qed.
 
 Lemma find_some_in {A} (f : A -> bool) l x : find f l = Some x -> In x l /\ f x = true.
@@ -320,18 +393,24 @@ Proof. apply find_some. Qed.
 (* prepareRename's answer is the range of the identifier token under the cursor *)
 Lemma prepare_range d l c x :
   prepare_rename d l c = ROk (Some x) ->
-  exists t name, In t (d_toks d) /\ tk t = Ident name /\ name <> s_int
-                 /\ in_range (ts t, te t) (get_insertion_index l c (d_text d)) = true
-                 /\ x = pos_range (ts t, te t) (d_text d).
+  exists cur t name,
+    doc_cursor d l c = ROk cur /\ In t (d_toks d) /\ tk t = Ident name
+    /\ in_range (ts t, te t) (get_insertion_index l c (d_text d)) = true
+    /\ x = pos_range (ts t, te t) (d_text d)
+    /\ (forall ctx, c_ctx cur = Some ctx -> is_predefined name ctx (d_table d) (is_global_position cur) = false).
 Proof.
-  unfold prepare_rename, doc_cursor.
-  destruct (find_decl _ _ _) as [g|]; simpl; [|discriminate].
-  unfold cursor_ident, token_at. simpl.
+  unfold prepare_rename.
+  destruct (doc_cursor d l c) as [cur|] eqn:DC; simpl; [|discriminate].
+  assert (CI : c_doc cur = d /\ c_index cur = get_insertion_index l c (d_text d)).
+  { unfold doc_cursor in DC. destruct (find_decl _ _ _) as [g|]; simpl in DC; [|discriminate].
+    inversion DC; subst; simpl; auto. }
+  destruct CI as [CD CX].
+  unfold cursor_ident, token_at. rewrite CD, CX.
   destruct (find _ (d_toks d)) as [t|] eqn:F; [|discriminate].
   destruct (tk t) as [| | | | | | | | | | | | | | | | | | | | | | | | | | | | |s| | | | | |] eqn:K; try discriminate.
-  destruct (text_eqb s s_int) eqn:E; [discriminate|].
+  destruct (match c_ctx cur with Some ctx => _ | None => false end) eqn:P; [discriminate|].
   intros H. inversion H; subst. apply find_some in F. destruct F as [F1 F2].
-  exists t, s. repeat split; auto. intros ->. now rewrite text_eqb_refl' in E.
+  exists cur, t, s. repeat split; auto. intros ctx C. now rewrite C in P.
 Qed.
 
 (* references = the edits of rename without the cursor's own identifier *)
@@ -343,7 +422,7 @@ Proof.
   destruct (doc_cursor d l c) as [cur|]; simpl; [|discriminate].
   destruct (cursor_ident cur) as [id|]; [|discriminate].
   destruct (c_ctx cur) as [ctx|]; [|discriminate].
-  destruct (text_eqb (fst id) s_int); [now left|].
+  destruct (is_predefined _ _ _ _); [now left|].
   destruct (text_ranges _ _) as [xs|]; simpl; [|discriminate].
   intros H. inversion H; subst. right. eexists; split; [reflexivity|].
   intros x Hx. apply in_map_iff in Hx. destruct Hx as [y [<- Hy]]. apply filter_In in Hy.
@@ -356,140 +435,35 @@ Lemma rename_edits d l c es :
   rename d l c = ROk (Some es) ->
   exists cur name r ctx,
     doc_cursor d l c = ROk cur /\ cursor_ident cur = Some (name, r) /\ c_ctx cur = Some ctx
+    /\ is_predefined name ctx (d_table d) (is_global_position cur) = false
     /\ Forall2 (fun i e => id_val i = name
                            /\ exists x, ident_text_range (d_toks d) i = ROk x /\ e = pos_range x (d_text d))
-               (find_referenced_identifiers name ctx (d_ast d) (d_table d)) es
+               (find_referenced_identifiers name ctx (d_ast d) (d_table d) (is_global_position cur)) es
     /\ Forall (loc_of_token d) es.
 Proof.
   unfold rename, with_cursor_r.
   destruct (doc_cursor d l c) as [cur|] eqn:E1; simpl; [|discriminate].
   destruct (cursor_ident cur) as [[name r]|] eqn:E2; [|discriminate].
   destruct (c_ctx cur) as [ctx|] eqn:E3; [|discriminate]. simpl.
-  destruct (text_eqb name s_int); [discriminate|].
+  destruct (is_predefined _ _ _ _) eqn:P; [discriminate|].
   destruct (text_ranges _ _) as [xs|] eqn:T; simpl; [|discriminate].
   intros H. inversion H; subst. exists cur, name, r, ctx. repeat split; auto.
   - apply text_ranges_spec in T.
-    assert (N : forall i, In i (find_referenced_identifiers name ctx (d_ast d) (d_table d)) -> id_val i = name)
+    assert (N : forall i, In i (find_referenced_identifiers name ctx (d_ast d) (d_table d) (is_global_position cur)) -> id_val i = name)
       by (intros; eapply same_name; eauto).
-    clear H E1 E2 E3. remember (find_referenced_identifiers name ctx (d_ast d) (d_table d)) as L. clear HeqL.
+    clear H E1 E2 E3 P. remember (find_referenced_identifiers name ctx (d_ast d) (d_table d) (is_global_position cur)) as L. clear HeqL.
     induction T as [|i x l' xs' [Hv Hr] T IH]; simpl; constructor.
     + split; [apply N; now left|]. eauto.
     + apply IH. intros; apply N; now right.
   - apply text_ranges_spec in T. clear -T.
-    remember (find_referenced_identifiers name ctx (d_ast d) (d_table d)) as L. clear HeqL.
+    remember (find_referenced_identifiers name ctx (d_ast d) (d_table d) (is_global_position cur)) as L. clear HeqL.
     induction T as [|i x l' xs' [Hv Hr] T IH]; simpl; constructor; auto.
     destruct (ident_text_range_token _ _ _ Hr) as [t [Ht [-> | ->]]]; exists t; auto.
 Qed.
 
 (* ------------------------------------------------------------------------------------------------
-   The formal reading of C13 over the occurrences and bindings of Proofs/GotoProofs.v *)
-
-(* two occurrences are bound to the same entity: the same declaring occurrence, or - for
-   predefined entities, which have none - the same name *)
-Definition same_entity (occs : list occ) (a b : occ) : bool :=
-  match binding occs a, binding occs b with
-  | Some x, Some y => Nat.eqb (o_tok x) (o_tok y)
-  | None, None => text_eqb (o_name a) (o_name b)
-  | _, _ => false
-  end.
-
-Fixpoint opt_locs (l : list (option loc)) : list loc :=
-  match l with [] => [] | Some x :: r => x :: opt_locs r | None :: r => opt_locs r end.
-
-Definition spec_references (d : doc) (o : occ) : list loc :=
-  let occs := occurrences (d_ast d) in
-  opt_locs (map (loc_of_occ d)
-                (filter (fun x => same_entity occs x o && negb (Nat.eqb (o_tok x) (o_tok o))) occs)).
-
-(* one edit per occurrence of the binding, the declaration included; a predefined entity has no
-   declaration, so no rename is offered *)
-Definition spec_rename (d : doc) (o : occ) : option (list loc) :=
-  let occs := occurrences (d_ast d) in
-  match binding occs o with
-  | Some _ => Some (opt_locs (map (loc_of_occ d) (filter (fun x => same_entity occs x o) occs)))
-  | None => None
-  end.
-
-Definition spec_prepare (d : doc) (o : occ) : option loc :=
-  match binding (occurrences (d_ast d)) o with
-  | Some _ => loc_of_occ d o
-  | None => None
-  end.
-
-Definition full_statement_refs : Prop :=
-  forall t d o l c,
-    clean_doc t d -> In o (occurrences (d_ast d)) -> cursor_inside d o l c ->
-    (exists rs, references d l c = ROk (Some rs) /\ Permutation rs (spec_references d o))
-    /\ match spec_rename d o with
-       | Some es' => exists es, rename d l c = ROk (Some es) /\ Permutation es es'
-       | None => rename d l c = ROk None
-       end
-    /\ prepare_rename d l c = ROk (spec_prepare d o).
-
-(* ---- the second half of the property: applying the edits ---- *)
-Definition loc_start_ltb (a b : loc) : bool :=
-  (fst (fst a) <? fst (fst b))%N || ((fst (fst a) =? fst (fst b))%N && (snd (fst a) <? snd (fst b))%N).
-
-Fixpoint insert_desc (x : loc) (l : list loc) : list loc :=
-  match l with
-  | [] => [x]
-  | y :: r => if loc_start_ltb y x then x :: l else y :: insert_desc x r
-  end.
-
-(* all edits of a WorkspaceEdit refer to the original text: apply them from the last to the first *)
-Definition apply_rename (t : text) (edits : list loc) (new : text) : option text :=
-  Doc.apply_changes t (map (fun r => {| Doc.crange := Some r; Doc.ctext := new |}) (fold_right insert_desc [] edits)).
-
-(* an identifier spelling that occurs nowhere in the document and names nothing predefined *)
-Definition fresh_name (d : doc) (new : text) : Prop :=
-  (exists tok rest, lex new = Some (tok :: rest) /\ tk tok = Ident new /\ te tok = blen new)
-  /\ (forall tok, In tok (d_toks d) -> tk tok <> Ident new)
-  /\ existsb (text_eqb new) default_entries = false.
-
-(* rename to a fresh name: the result is again diagnostic-free, its occurrences (same walk order,
-   so position by position) are bound together exactly as before, and renaming the same occurrence
-   back to the old name restores the original text *)
-Definition roundtrip_statement : Prop :=
-  forall t d n o l c new es t',
-    clean_doc t d -> nth_error (occurrences (d_ast d)) n = Some o -> binding (occurrences (d_ast d)) o <> None ->
-    cursor_inside d o l c -> fresh_name d new ->
-    rename d l c = ROk (Some es) -> apply_rename t es new = Some t' ->
-    exists d',
-      clean_doc t' d'
-      /\ length (occurrences (d_ast d')) = length (occurrences (d_ast d))
-      /\ (forall i j a b a' b',
-            nth_error (occurrences (d_ast d)) i = Some a -> nth_error (occurrences (d_ast d)) j = Some b ->
-            nth_error (occurrences (d_ast d')) i = Some a' -> nth_error (occurrences (d_ast d')) j = Some b' ->
-            same_entity (occurrences (d_ast d')) a' b' = same_entity (occurrences (d_ast d)) a b)
-      /\ (forall o' l' c',
-            nth_error (occurrences (d_ast d')) n = Some o' -> cursor_inside d' o' l' c' ->
-            exists es', rename d' l' c' = ROk (Some es') /\ apply_rename t' es' (o_name o) = Some t).
-
-(* ---- executable instance, witnesses ---- *)
-Fixpoint count_loc (x : loc) (l : list loc) : nat :=
-  match l with [] => 0 | y :: r => (if loc_eqb x y then 1 else 0) + count_loc x r end.
-(* multiset equality *)
-Definition same_locs (a b : list loc) : bool :=
-  Nat.eqb (length a) (length b) && forallb (fun x => Nat.eqb (count_loc x a) (count_loc x b)) a.
-
-Definition refs_agree_at (d : doc) (o : occ) : bool :=
-  match nth_error (d_toks d) (o_tok o) with
-  | Some tok =>
-      forallb (fun idx =>
-        let p := as_position idx (d_text d) in
-        match references d (fst p) (snd p) with
-        | ROk (Some rs) => same_locs rs (spec_references d o)
-        | _ => false
-        end
-        && match rename d (fst p) (snd p), spec_rename d o with
-           | ROk (Some es), Some es' => same_locs es es'
-           | ROk None, None => true
-           | _, _ => false
-           end
-        && res_loc_eqb (prepare_rename d (fst p) (snd p)) (spec_prepare d o))
-        [ts tok; (te tok - 1)%N]
-  | None => false
-  end.
+   The formal reading of C13 (same_entity, spec_references, spec_rename, spec_prepare,
+   full_statement_refs, apply_rename, fresh_name, roundtrip_statement, refs_agree_at) is in Spec/Nav.v. *)
 
 Lemma refs_refutation_instance (t : text) (l c : N) (n : nat) :
   is_clean t = true ->
@@ -518,10 +492,10 @@ Proof.
   - rewrite R in H2. apply Permutation_length in P. rewrite P, Nat.eqb_refl in H2. discriminate.
 Qed.
 
-(* a local named like its procedure: references on the parameter `f` answers with the header and
-   the call of the PROCEDURE f (2 locations); bound to the parameter is 1 other occurrence *)
-Lemma full_statement_refs_refuted : ~ full_statement_refs.
-Proof. apply (refs_refutation_instance witness_own_name 0 7 1); vm_compute; reflexivity. Qed.
+(* [refs_refutation_instance] / [rename_refutation_instance]: the tools for a counterexample (a wrong
+   number of references / of edits, or a wrong null).  None is known for the code of /repo b909979:
+   on the four former counterexamples the statement now holds at every occurrence (Props/C13.v,
+   C13_repaired_witnesses_agree). *)
 
 Lemma rename_refutation_instance (t : text) (l c : N) (n : nat) :
   is_clean t = true ->
@@ -555,19 +529,12 @@ Proof.
 Qed.
 
 From Coq Require Import String.
-(* rename is offered on a predefined procedure *)
+(* witnesses of the findings repaired by /repo b909979 (with Proofs/GotoProofs.v witness_own_name and
+   witness_type_name; regression corpus of the check, corpus/C13/*.json) *)
+(* rename was offered on a predefined procedure *)
 Definition witness_predefined : text := str "proc main() { printi(1); printi(2); }".
-(* a variable named `int` cannot be renamed *)
+(* a variable named `int` could not be renamed *)
 Definition witness_int_variable : text := str "proc main() { var int: int; int := 1; }".
-
-Lemma full_statement_refs_refuted_predefined : ~ full_statement_refs.
-Proof. apply (rename_refutation_instance witness_predefined 0 14 1); vm_compute; reflexivity. Qed.
-
-Lemma full_statement_refs_refuted_int_variable : ~ full_statement_refs.
-Proof. apply (rename_refutation_instance witness_int_variable 0 28 3); vm_compute; reflexivity. Qed.
-
-Lemma full_statement_refs_refuted_type_name : ~ full_statement_refs.
-Proof. apply (refs_refutation_instance witness_type_name 0 35 4); vm_compute; reflexivity. Qed.
 
 (* a program on which the implementation does what the specification says at every occurrence:
    the same names (a, i) in two procedures, uses in index / negated / parenthesised expressions,
